@@ -621,3 +621,63 @@ def cleanup_suffix(idx: Index, m: Module):
             if any(isinstance(x, ast.Attribute) and x.attr == "unlink" for x in ast.walk(fn)):
                 return c.args[0].value[1:]
     return None
+
+
+def _test_harness_update(ctx: Ctx):
+    """The rust plugin rewrites the region between two markers of an existing test harness file.  generate_test_code is
+    folded (E5) on a synthetic harness: the result for a model must not depend on what an earlier run left between the
+    markers (run B after run A == run B on the fresh file), and everything outside the markers, the marker lines
+    included, must survive."""
+    from ..microeval import Interp, Record, Raised, ModuleRef
+    rel = "generator/plugins/rust/rust_tests.py"
+    if not ctx.src.exists(rel):
+        raise AnalysisError(f"{rel}: not found")
+    try:
+        tree = ast.parse(ctx.src.text(rel))
+    except SyntaxError as e:
+        raise AnalysisError(f"{rel}: {e}")
+    fn = next((st for st in tree.body if isinstance(st, ast.FunctionDef) and st.name == "generate_test_code"), None)
+    if fn is None:
+        raise AnalysisError(f"{rel}: generate_test_code not found")
+    ctx.fn("rust_tests.py:generate_test_code")
+    it = Interp(tree, name=rel)
+    it.globals["get_name"] = ("host", lambda m_: m_.fields["name"])
+    fresh = ["// header", "fn main() {", "    match x {", "        // GENERATED_TEST_CODE:start", "        \"Old\" => {}",
+             "        // GENERATED_TEST_CODE:end", "        _ => {}", "    }", "}"]
+
+    def spec(names_r, names_n):
+        mk = lambda n_: Record("Message", {"name": n_, "method": n_, "typeName": None})   # noqa: E731
+        return Record("Spec", {"requests": [mk(n_) for n_ in names_r], "notifications": [mk(n_) for n_ in names_n]})
+
+    def run(text_lines, sp):
+        state = {"text": "\n".join(text_lines), "written": None}
+        path = Record("Path", {"read_text": ("host", lambda *a, **k: state["text"]),
+                               "write_text": ("host", lambda t, *a, **k: state.__setitem__("written", t)),
+                               "exists": ("host", lambda: True)})
+        try:
+            it.call(fn, [sp, path])
+        except Raised as e:
+            return ("raises", e.exc_name)
+        return state["written"].split("\n") if isinstance(state["written"], str) else None
+    a, b = spec(["AlphaRequest", "BetaRequest"], ["GammaNotification"]), spec(["DeltaRequest"], [])
+    out_a = run(fresh, a)
+    out_b = run(fresh, b)
+    ok_shape = isinstance(out_b, list) and out_b[:4] == fresh[:4] and out_b[-4:] == fresh[-4:] and "\"Old\" => {}" not in "\n".join(out_b)
+    ctx.check(ok_shape, "harness-update-keeps-markers", "rust:generate_test_code:fresh",
+              f"rewriting the generated region of the test harness does not keep the surrounding lines / markers: {out_b}",
+              rel, fn.lineno)
+    if isinstance(out_a, list):
+        out_ba = run(out_a, b)
+        ctx.check(out_ba == out_b, "harness-update-history-free", "rust:generate_test_code:rerun",
+                  "running the plugin for one model after it ran for another gives a different harness than running it on "
+                  f"the fresh file: {out_ba} vs {out_b}", rel, fn.lineno, sample={"rerun_equals_fresh": out_ba == out_b})
+    else:
+        ctx.fail("harness-update-keeps-markers", "rust:generate_test_code:first-run", f"first run gives {out_a}", rel, fn.lineno)
+
+
+_run_c16 = run
+
+
+def run(ctx: Ctx):  # noqa: F811
+    _run_c16(ctx)
+    _test_harness_update(ctx)
